@@ -10,6 +10,7 @@ import (
 	"runtime"
 	"sort"
 	"strings"
+	"time"
 	"unicode/utf8"
 
 	"github.com/gregoryv/mq"
@@ -34,6 +35,7 @@ type callResult struct {
 // guarded runs fn with a step budget (effective on instrumented builds)
 // and converts a panic into a value.
 func guarded(budget int64, fn func()) (res callResult) {
+	tickClock()
 	start := mq.VerifSteps
 	if budget > 0 {
 		mq.VerifBudget = start + budget
@@ -55,6 +57,35 @@ func guarded(budget int64, fn func()) (res callResult) {
 	fn()
 	return
 }
+
+// ---- the clock --------------------------------------------------------------
+//
+// On the instrumented build every time.Now/Since/Until of the library goes
+// through mq.VerifNowHook (clock seam of the instrumenter). The harness owns
+// that clock: it starts at a fixed instant at the beginning of every
+// execution, every guarded library call happens 2.5 s after the previous one
+// and every reading of the clock advances it by a millisecond. A library that
+// lets the time of day or the time elapsed between two calls influence what it
+// encodes, decodes or renders therefore shows it as a difference between
+// operations that must agree - deterministically, without sleeping.
+
+var clockBase = time.Date(2026, 10, 2, 12, 0, 0, 0, time.UTC)
+var clockNow = clockBase
+
+func resetClock() {
+	clockNow = clockBase
+	if mq.VerifNowHook == nil {
+		mq.VerifNowHook = func() time.Time {
+			clockNow = clockNow.Add(time.Millisecond)
+			return clockNow
+		}
+	}
+}
+
+func tickClock() { clockNow = clockNow.Add(2500 * time.Millisecond) }
+
+// advanceClock lets a longer time pass (a packet kept for an hour).
+func advanceClock(d time.Duration) { clockNow = clockNow.Add(d) }
 
 // panicSite returns the innermost frame inside the library of the panic
 // being recovered.
@@ -193,6 +224,8 @@ type InstrFacts struct {
 		PtrRecv bool   `json:"ptr_recv"`
 	} `json:"api"`
 	ExportedTypes []string `json:"exported_types"`
+	ClockSeam     bool     `json:"clock_seam"`
+	ClockSites    int      `json:"clock_sites"`
 	ConstInts     []int64  `json:"const_ints"`
 	ConstStrings  []string `json:"const_strings"`
 }
